@@ -201,7 +201,7 @@ def exec_state(df, st, emb, kind, part, variant=0):
     vdims = L.vdims_for(m, nv)
     arr = fldmod.unflatten(L.enc_rows(kind, exp), n)
     try:
-        f = df.Field(mesh, nvdim=nv, value=arr, dtype=L.DTYPE[kind], vdims=vdims)
+        f = fldmod.lived(df.Field(mesh, nvdim=nv, value=arr, dtype=L.DTYPE[kind], vdims=vdims), sum(n) + nv + len(kind))
     except Exception as ex:
         part.violation(f"C02_CellwiseSpec/make/array/rejected/{kind}", f"a full-shape array is rejected: {type(ex).__name__}", wit(exc=repr(ex)))
         return
